@@ -8,7 +8,8 @@
 //!          idx: value = 100 * (position of the signal in the signal list + 1) + call number
 //!   driver layout <fwd | rev | none | only NAME..>  order / subset of the outputs in every answer (default fwd)
 //!   driver deviate <swap|drop|dup|dupfirst> <N>     from call N on (dupfirst: only in call N): change the layout
-//!   driver failat <N>                               call N returns an error
+//!   driver failat <N> [<M> ..]                      calls N, M, .. return an error
+//!   driver failfrom <N>                             every call from call N on returns an error
 //!   driver override_write                           the driver implements write_input itself (logged as W)
 //!   maxrows <n>
 //!   vars                                            report vars() after every row
@@ -44,7 +45,8 @@ struct Cfg {
     value: String,
     layout: String,
     deviate: Option<(String, usize)>,
-    failat: Option<usize>,
+    failat: Vec<usize>,
+    failfrom: Option<usize>,
     override_write: bool,
 }
 
@@ -124,7 +126,7 @@ impl<'s> TestDriver for Drv<'s> {
     fn write_input_and_read_output(&mut self, inputs: &[InputEntry<'_>]) -> Result<Vec<OutputEntry<'_>>, DrvErr> {
         self.calls += 1;
         self.log.push(format!("R[{}]", fmt_inputs(inputs)));
-        if self.cfg.failat == Some(self.calls) {
+        if self.cfg.failat.contains(&self.calls) || self.cfg.failfrom.map_or(false, |n| self.calls >= n) {
             return Err(DrvErr(self.calls));
         }
         Ok(self.answer(inputs))
@@ -133,7 +135,7 @@ impl<'s> TestDriver for Drv<'s> {
         if self.cfg.override_write {
             self.calls += 1;
             self.log.push(format!("W[{}]", fmt_inputs(inputs)));
-            if self.cfg.failat == Some(self.calls) {
+            if self.cfg.failat.contains(&self.calls) || self.cfg.failfrom.map_or(false, |n| self.calls >= n) {
                 return Err(DrvErr(self.calls));
             }
             Ok(())
@@ -432,7 +434,8 @@ fn run_one(path: &str) {
                 Some("value") => cfg.value = w[2..].join(" "),
                 Some("layout") => cfg.layout = w[2..].join(" "),
                 Some("deviate") => cfg.deviate = Some((w[2].to_string(), w[3].parse().unwrap())),
-                Some("failat") => cfg.failat = Some(w[2].parse().unwrap()),
+                Some("failat") => cfg.failat = w[2..].iter().map(|x| x.parse().unwrap()).collect(),
+                Some("failfrom") => cfg.failfrom = Some(w[2].parse().unwrap()),
                 Some("override_write") => cfg.override_write = true,
                 // old single-line forms
                 Some("none") => cfg.layout = "none".into(),
